@@ -12,7 +12,11 @@ Open Scope string_scope. Open Scope list_scope.
 
 (* ------------------------------------------------------------------ trees *)
 Inductive leaf :=
-| LFun (vec : bool) (name : string)      (* ScalarFunction / VectorFunction: a declared argument or a free field *)
+| LFun (vec : bool) (name sp : string)   (* ScalarFunction / VectorFunction (a declared argument or a free field) with the
+                                            tag of ITS SPACE (space name : kind): the hash of a function is
+                                            hash((name, space)), so a dictionary / xreplace lookup (hash, then ==)
+                                            distinguishes same-named functions of different spaces, although == alone
+                                            (Symbol.__eq__: class and name) does not *)
 | LConst (name : string)                 (* Constant *)
 | LCoord (name : string)                 (* coordinate symbol *)
 | LNum (p : Z) (q : positive)            (* Integer / Rational *)
@@ -32,18 +36,29 @@ Record form := mkForm {
   f_kind : fkind;
   f_trials : list leaf;       (* variables[0]  (empty for a linear form) *)
   f_tests : list leaf;        (* variables[1]  (variables for a linear form) *)
-  f_body : body }.
+  f_body : body;
+  f_atoms : list leaf }.      (* the functions of the integrands in the ITERATION ORDER of the Python set
+                                 expr.atoms(ScalarFunction, VectorFunction): the order depends on the hash seed, it is
+                                 an input of the model (read off the running interpreter), never computed *)
 Definition vars (a : form) : list leaf := f_trials a ++ f_tests a.
 
 (* ------------------------------------------------------------------ equality / order *)
+(* [leaf_eqb]: the identity that a dict lookup / set membership sees (equal hash AND ==): class, name and space.
+   [leaf_pyeq]: Python's == alone: class and name; the space is ignored *)
 Definition leaf_eqb (a b : leaf) : bool :=
   match a, b with
-  | LFun v n, LFun v' n' => Bool.eqb v v' && String.eqb n n'
+  | LFun v n s, LFun v' n' s' => Bool.eqb v v' && String.eqb n n' && String.eqb s s'
   | LConst n, LConst n' => String.eqb n n'
   | LCoord n, LCoord n' => String.eqb n n'
   | LNum p q, LNum p' q' => Z.eqb p p' && Pos.eqb q q'
   | LOther c n, LOther c' n' => String.eqb c c' && String.eqb n n'
   | _, _ => false
+  end.
+
+Definition leaf_pyeq (a b : leaf) : bool :=
+  match a, b with
+  | LFun v n _, LFun v' n' _ => Bool.eqb v v' && String.eqb n n'
+  | _, _ => leaf_eqb a b
   end.
 
 Fixpoint expr_eqb (a b : expr) {struct a} : bool :=
@@ -71,13 +86,13 @@ Fixpoint body_eqb (b1 b2 : body) : bool :=
   end.
 
 Definition leaf_rank (a : leaf) : nat :=
-  match a with LNum _ _ => 0 | LConst _ => 1 | LCoord _ => 2 | LFun _ _ => 3 | LOther _ _ => 4 end.
+  match a with LNum _ _ => 0 | LConst _ => 1 | LCoord _ => 2 | LFun _ _ _ => 3 | LOther _ _ => 4 end.
 
 Definition lex (c d : comparison) : comparison := match c with Eq => d | _ => c end.
 
 Definition leaf_cmp (a b : leaf) : comparison :=
   match a, b with
-  | LFun v n, LFun v' n' => lex (Bool.compare v v') (String.compare n n')
+  | LFun v n s, LFun v' n' s' => lex (Bool.compare v v') (lex (String.compare n n') (String.compare s s'))
   | LConst n, LConst n' => String.compare n n'
   | LCoord n, LCoord n' => String.compare n n'
   | LNum p q, LNum p' q' => lex (Z.compare p p') (Pos.compare q q')
@@ -181,17 +196,21 @@ Fixpoint leaves (e : expr) : list leaf :=
 Definition body_leaves (b : body) : list leaf := flat_map (fun re => leaves (snd re)) b.
 
 Definition lmem (k : leaf) (l : list leaf) : bool := existsb (leaf_eqb k) l.
-Definition is_fun (l : leaf) : bool := match l with LFun _ _ => true | _ => false end.
+Definition is_fun (l : leaf) : bool := match l with LFun _ _ _ => true | _ => false end.
 Definition is_const (l : leaf) : bool := match l with LConst _ => true | _ => false end.
 Definition leaf_name (l : leaf) : string :=
-  match l with LFun _ n | LConst n | LCoord n | LOther _ n => n | LNum _ _ => "" end.
+  match l with LFun _ n _ | LConst n | LCoord n | LOther _ n => n | LNum _ _ => "" end.
 
-(* BasicForm.fields / .constants / get_free_variables: {i.name: i for i in fields + constants} *)
+(* BasicForm.fields / .constants / get_free_variables.
+   fields = tuple(i for i in atoms if i not in args): `in` on a tuple is decided with == ALONE ([pymem]), so a function
+   of the integrands that carries the name of a declared argument and lives in another space is NOT a field *)
+Definition pymem (k : leaf) (l : list leaf) : bool := existsb (leaf_pyeq k) l.
 Definition fields (a : form) : list leaf :=
-  filter (fun l => is_fun l && negb (lmem l (vars a))) (body_leaves (f_body a)).
+  filter (fun l => is_fun l && negb (pymem l (vars a))) (f_atoms a).
 Definition constants (a : form) : list leaf := filter is_const (body_leaves (f_body a)).
 Definition free_vars (a : form) : list leaf := fields a ++ constants a.
 
+(* {i.name: i for i in fields + constants}[n]: ONE symbol per name, the last one registered *)
 Fixpoint find_name (n : string) (l : list leaf) : option leaf :=
   match l with
   | [] => None
@@ -217,7 +236,7 @@ Definition values_of (a : form) (pos : list parg) : option (list expr) :=
   | Linear => match pos with [p] => Some (as_list p) | _ => Some (map as_value pos) end
   end.
 
-(* _free_variables_subs: {free variable named n: value}, refusing a name that is not free *)
+(* _free_variables_subs: {THE free variable registered under the name n: value}, refusing a name that is not free *)
 Fixpoint kw_dict (fv : list leaf) (kw : list (string * expr)) : option dict :=
   match kw with
   | [] => Some []
@@ -244,10 +263,57 @@ Definition count_ok (a : form) (pos : list parg) : bool :=
       end
   end.
 
-(* __call__ (after the repairs 8f04492, 8cb0139): the keyword dictionary is built first (unknown name =>
-   ValueError), the numbers of values are checked (ValueError), then subs.update(zip(variables, values)) and
-   ONE xreplace of self.expr with the merged dictionary *)
+(* __call__ (after the repairs 8f04492, 8cb0139): the keyword dictionary is built first (unknown name => ValueError),
+   the numbers of values are checked (ValueError), then subs.update(zip(variables, values)) and ONE xreplace of
+   self.expr with the merged dictionary.  [fv] = the free variables, [kd] = the keyword dictionary builder *)
+Definition call_with (fv : list leaf) (kd : list leaf -> list (string * expr) -> option dict)
+                     (a : form) (pos : list parg) (kw : list (string * expr)) : result :=
+  match values_of a pos with
+  | None => Err ErrArity
+  | Some vals =>
+      match kd fv kw with
+      | None => Err ErrUnknownKw
+      | Some d =>
+          if count_ok a pos
+          then Ok (map_body (subst_sim (d ++ combine (vars a) vals)) (f_body a))
+          else Err ErrCount
+      end
+  end.
 Definition call (a : form) (pos : list parg) (kw : list (string * expr)) : result :=
+  call_with (free_vars a) kw_dict a pos kw.
+
+(* BasicForm._update_free_variables(name=value, ...): the keyword substitution alone, one xreplace with the whole dictionary *)
+Definition update_free_variables (a : form) (kw : list (string * expr)) : result :=
+  match kw_dict (free_vars a) kw with
+  | None => Err ErrUnknownKw
+  | Some d => Ok (map_body (subst_sim d) (f_body a))
+  end.
+
+(* ---- names as identities: what the proposed repair fix-same-name-spaces.patch would do (NOT the code).
+   The code decides three things with == alone, which ignores the space of a function (known findings
+   C10-same-name-...): (1) [fields] above; (2) [kw_dict] binds ONE of the free symbols that carry the keyword's name
+   (the last one of a set iteration: which one depends on the hash seed); (3) [is_symmetric] below compares
+   a(u, v) == a(v, u).  With identities instead: *)
+Definition fields_ids (a : form) : list leaf :=
+  filter (fun l => is_fun l && negb (lmem l (vars a))) (f_atoms a).
+Definition free_vars_ids (a : form) : list leaf := fields_ids a ++ constants a.
+Definition named (n : string) (l : list leaf) : list leaf := filter (fun x => String.eqb n (leaf_name x)) l.
+Fixpoint kw_dict_all (fv : list leaf) (kw : list (string * expr)) : option dict :=
+  match kw with
+  | [] => Some []
+  | (n, v) :: r =>
+      match named n fv, kw_dict_all fv r with
+      | (_ :: _) as xs, Some d => Some (map (fun x => (x, v)) xs ++ d)
+      | _, _ => None
+      end
+  end.
+Definition call_ids (a : form) (pos : list parg) (kw : list (string * expr)) : result :=
+  call_with (free_vars_ids a) kw_dict_all a pos kw.
+
+(* for contrast (what a "do not replace an argument by itself" shortcut written with != would do): the pairs
+   (old, new) with old == new are dropped from the dictionary; == ignores the space *)
+Definition val_pyeq (l : leaf) (v : expr) : bool := match v with ELeaf l' => leaf_pyeq l l' | _ => false end.
+Definition call_skip_equal (a : form) (pos : list parg) (kw : list (string * expr)) : result :=
   match values_of a pos with
   | None => Err ErrArity
   | Some vals =>
@@ -255,7 +321,8 @@ Definition call (a : form) (pos : list parg) (kw : list (string * expr)) : resul
       | None => Err ErrUnknownKw
       | Some d =>
           if count_ok a pos
-          then Ok (map_body (subst_sim (d ++ combine (vars a) vals)) (f_body a))
+          then Ok (map_body (subst_sim (d ++ filter (fun kv => negb (val_pyeq (fst kv) (snd kv))) (combine (vars a) vals)))
+                            (f_body a))
           else Err ErrCount
       end
   end.
@@ -282,8 +349,32 @@ Definition call_before_fix (a : form) (pos : list parg) (kw : list (string * exp
       end
   end.
 
-(* BilinearForm.is_symmetric:  self(left, right) == self(right, left) *)
+(* == alone: the spaces of the functions are not looked at *)
+Definition erase_leaf (l : leaf) : leaf := match l with LFun v n _ => LFun v n "" | _ => l end.
+Fixpoint erase (e : expr) : expr :=
+  match e with
+  | ELeaf l => ELeaf (erase_leaf l)
+  | EAdd l => EAdd (map erase l)
+  | EMul l => EMul (map erase l)
+  | EPow b x => EPow (erase b) (erase x)
+  | EOp n l => EOp n (map erase l)
+  end.
+Definition struct_pyeq (b1 b2 : body) : bool := struct_eq (map_body erase b1) (map_body erase b2).
+
+(* BilinearForm.is_symmetric:  self(left, right) == self(right, left)   (== alone) *)
 Definition is_symmetric (a : form) : bool :=
+  match f_kind a with
+  | Linear => false
+  | Bilinear =>
+      match call a [PSeq (map ELeaf (f_trials a)); PSeq (map ELeaf (f_tests a))] [],
+            call a [PSeq (map ELeaf (f_tests a)); PSeq (map ELeaf (f_trials a))] [] with
+      | Ok x, Ok y => struct_pyeq x y
+      | _, _ => false
+      end
+  end.
+
+(* the proposed repair: equal as dictionary keys (== and equal hashes), spaces included *)
+Definition is_symmetric_ids (a : form) : bool :=
   match f_kind a with
   | Linear => false
   | Bilinear =>
